@@ -21,6 +21,7 @@ import WuffsVerif.Proof.RacAntiLoop
 import WuffsVerif.Proof.RacHCodec
 import WuffsVerif.Proof.RacCrc
 import WuffsVerif.Proof.RacRoundtrip
+import WuffsVerif.Proof.RacToyCodec
 
 namespace WuffsVerif.Props.C13
 open WuffsVerif.Rac
@@ -345,6 +346,24 @@ def rac_roundtrip_statement : Prop :=
 theorem rac_roundtrip : rac_roundtrip_statement := by
   intro cw D hc hD hz w0 hfresh ps hok
   exact rac_roundtrip_thm cw D hc hD hz w0 hfresh ps hok
+
+/-- non-vacuity: the three hypotheses on the codec are jointly satisfiable (toy codec `|x|` ones, a zero, `x`,
+under short codec 0x3E, no `Cut`) … -/
+theorem roundtrip_hyps_satisfiable :
+    ∃ (cw : CodecW) (D : Bytes → Option Bytes), CodecContract cw D ∧
+      (∀ a b d, D a = some d → D (a ++ b) = some d) ∧
+      (∀ a b rs out, cw.compress a b rs = .ok out → out.codec ≠ 0 ∧ out.codec ≠ 2 ^ 63) :=
+  WuffsVerif.Rac.roundtrip_hyps_satisfiable
+
+set_option maxRecDepth 200000 in
+/-- … and with that codec a two-write session with `DChunkSize` 2 and the index at the start closes with nil
+(so the premise `Close = nil` of `rac_roundtrip` is reachable for a codec meeting all hypotheses) -/
+example :
+    let cw : CodecW := { compress := fun p q _ => .ok ⟨0x3E00000000000000, uenc (p ++ q), -1, -1⟩, canCut := false,
+      cut := fun _ _ _ => .error (.codec 1), wrapResource := fun r => .ok r, close := none }
+    let w0 : Writer := { dChunkSizeCfg := 2, indexAtStart := true, tempKind := 1, cPageSize := 8 }
+    (((Writer.runWrites cw w0 [[1, 2, 0], [0, 5]]).Close cw).2.isNone) = true := by
+  decide +kernel
 
 /-- non-vacuity of the extra codec hypothesis: the harness codec never names "Zeroes" when it runs under a
 non-zero short codec number -/
